@@ -132,6 +132,23 @@ def execute(args):
         except Exception as ex:  # noqa
             problems.append(("headerless:raises:%s" % type(ex).__name__, "validating the spreadsheet without header %r raised %s: %s"
                              % (lines, type(ex).__name__, ex)))
+    # a value column referenced in curly braces from the categorical entries: its one failing cell must be reported at ITS
+    # file row, in whatever order the rows (onsets) come
+    if n >= 2 and code != "VALUE_INVALID" and any(r["c"] in ("a", "b") for r in case["rows"]):
+        a_, b_ = TAGS[rot % len(TAGS)]
+        sc2 = {"cat": {"HED": {"ka": a_ + ", {num}", "kb": "({num}, %s)" % b_, "kbad": BAD[rot % len(BAD)]}}, "num": {"HED": "Item-count/#"}}
+        star = (rot // 3) % n
+        t3 = dict(table)
+        t3["num"] = ["abc" if k == star else str(3 + k) for k in range(n)]
+        want_rows = {star + 2} if case["rows"][star]["c"] in ("a", "b") else set()
+        try:
+            g3 = validate_table(t3, sc2)
+            got_rows = {r for c_, s_, r, col in g3 if c_ == "VALUE_INVALID"}
+            if got_rows != want_rows:
+                problems.append(("reference:wrong-row", "table %s with sidecar %s: the failing value cell is in file row %s, VALUE_INVALID is "
+                                 "reported at rows %s" % (t3, json.dumps(sc2), sorted(want_rows), sorted(got_rows))))
+        except Exception as ex:  # noqa
+            problems.append(("raises:%s" % type(ex).__name__, "validate raised %s: %s for table %s sidecar %s" % (type(ex).__name__, ex, t3, sc2)))
     # cross-oracle: rows with error-free cells == string-level validation of the assembled row
     cellerr_rows = {r for c, r, col in want_err if col}
     for i in range(n):
